@@ -128,6 +128,16 @@ def toDelete (l : Ledger) (maximum : Nat) : List Nat :=
     let cands := sorted.filter fun r => some r ≠ keep
     cands.take (l.length - maximum)
 
+/-- the same decision with the bound `removeLeastRecent` has had since the repair of the create race: the loop
+stops at the first record whose revision is `newest` (the one about to be created) or later -/
+def toDeleteBelow (l : Ledger) (maximum newest : Nat) : List Nat :=
+  if l.length ≤ maximum then []
+  else
+    let sorted := sortAsc (l.map (·.rev))
+    let keep := (deployed? l).map (·.rev)
+    let cands := sorted.filter fun r => some r ≠ keep
+    (cands.takeWhile (· < newest)).take (l.length - maximum)
+
 /-- delete each candidate; failures are collected (the loop goes on); a crash stops everything -/
 def pruneLoop : List Nat → St → Bool → Dec × St
   | [], s, anyFail => (if anyFail then .fail else .ok, s)
